@@ -17,30 +17,57 @@ PID = "C01"
 
 
 def write_mc(workdir, name, part, instances=(), maxoff=1, histlen=2, kw=("none", "forward", "call"), sites=("covar", "noise"), restore=True, slicekeeps=True,
-             setdata=("set-targets", "set-data"),
-             invariants=("LatticeOK", "AlgebraOK", "KnobsOK", "HistoryOK", "KernelRestored")):
+             setdata=("set-targets", "set-data", "load-state"), secondnoise="filtered",
+             invariants=("LatticeOK", "AlgebraOK", "KnobsOK", "HistoryOK", "KernelRestored", "NoiseOK")):
     os.makedirs(workdir, exist_ok=True)
     mod = "MC_ExactPosterior_" + name
     with open(os.path.join(workdir, mod + ".tla"), "w") as f:
         f.write("---- MODULE %s ----\nEXTENDS ExactPosterior\nInstDef == {%s}\n====\n" % (mod, ",\n  ".join(tla(i) for i in instances)))
     cfg = os.path.join(workdir, mod + ".cfg")
     tlc.write_cfg(cfg, spec="Spec", constants={"Part": part, "Instances": "<- InstDef", "MaxOff": maxoff, "HistLen": histlen, "HistKw": set(kw), "HistSites": set(sites),
-                                               "RestoreAlways": bool(restore), "SliceKeepsParams": bool(slicekeeps), "SetDataClears": set(setdata)}, invariants=list(invariants))
+                                               "RestoreAlways": bool(restore), "SliceKeepsParams": bool(slicekeeps), "SetDataClears": set(setdata), "SecondNoise": secondnoise}, invariants=list(invariants))
     return os.path.join(workdir, mod + ".tla"), cfg
 
 
 # deliberately broken variants of the history machine: TLC must reject each (OnePrior is not vacuous)
 BROKEN = {"active_dims-restored-only-under-debug": dict(restore=False), "slicing-drops-call-time-keywords": dict(slicekeeps=False),
-          "targets-only-set_train_data-keeps-the-strategy": dict(setdata=("set-data",))}
+          "targets-only-set_train_data-keeps-the-strategy": dict(setdata=("set-data", "load-state")),
+          "load_state_dict-keeps-the-strategy": dict(setdata=("set-targets", "set-data"))}
+# deliberately broken variants of the observation-noise transcription (part "noise"): TLC must reject each (NoiseOK is not vacuous)
+BROKEN_NOISE = {"learned-noise-sees-the-call-time-noise": "sees-noise", "learned-noise-skipped-when-a-call-time-noise-is-given": "early-return"}
+LIN_KINDS = ("homoskedastic", "fixed", "fixed-learned")
+
+
+DET_MAX = 100
+
+
+def det_bound(inst):
+    """TLC's integers are 32 bit and Rational.tla multiplies denominators: keep det(Kxx + S) - the denominator of every entry of the conditional - small"""
+    n = len(inst["X"])
+    S = [inst["s2"] if inst["lk"] != "fixed" else 0] * n
+    if inst["lk"] != "homoskedastic":
+        S = [a + b for a, b in zip(S, inst["tr"])]
+    A = [[Fraction(sum(a * b for a, b in zip(inst["X"][i], inst["X"][j])) + (S[i] if i == j else 0)) for j in range(n)] for i in range(n)]
+    det = Fraction(1)
+    for k in range(n):          # Gaussian elimination (A is positive definite)
+        det *= A[k][k]
+        for i in range(k + 1, n):
+            f = A[i][k] / A[k][k]
+            A[i] = [x - f * y for x, y in zip(A[i], A[k])]
+    return det <= DET_MAX
 
 
 def gen_instances(rnd, n_lin, n_root):
     out, seen = [], set()
     while len(out) < n_lin:
         n, ns = rnd.choice([(1, 1), (2, 1), (2, 2), (3, 1), (3, 2)])
+        # noise cell: likelihood kind x call-time noise (none / one value per test point) x size class (ns = n or not), rotating; the stored noise in
+        # 1..3, the call-time noise in 4..6, sigma2 / the learned second noise in 1..2: no two terms of the noise take the same value
+        lk, call = LIN_KINDS[len(out) % 3], (len(out) // 3) % 2 == 1
         inst = dict(kind="lin", X=[[rnd.randint(-2, 2), rnd.randint(-2, 2)] for _ in range(n)], Xs=[[rnd.randint(-2, 2), rnd.randint(-2, 2)] for _ in range(ns)],
-                    mc=rnd.randint(-1, 1), s2=rnd.choice([1, 2]), y=[rnd.randint(-2, 2) for _ in range(n)])
-        if repr(inst) not in seen:
+                    mc=rnd.randint(-1, 1), s2=rnd.choice([1, 2]), y=[rnd.randint(-2, 2) for _ in range(n)],
+                    lk=lk, tr=[rnd.randint(1, 3) for _ in range(n)], te=[rnd.randint(4, 6) for _ in range(ns)] if call else [])
+        if repr(inst) not in seen and det_bound(inst):
             seen.add(repr(inst))
             out.append(inst)
     k = 0
@@ -152,8 +179,40 @@ def _worker(item):
     return out
 
 
-class _Lin(object):
-    pass
+# one defect, one signature: the warned no-op of a fixed-noise likelihood (no call-time noise, size differs from the stored noise) raises when the
+# posterior covariance is the ZeroLinearOperator of skip_posterior_variances (findings/C01/fixed_noise_noop_skip_variances.py)
+NOOP_SKIPVAR_SIG = "C01/noise/fixed,noise=-,test-size/skip_posterior_variances/raises"
+
+
+def raises_sig(sig, kind, supply, size, cell):
+    return NOOP_SKIPVAR_SIG if (kind, supply, size) == ("fixed", "none", "test") and cell["skipvar"] else sig + "/raises"
+
+
+def noise_cell_name(kind, supply, size):
+    return "%s,noise=%s,%s-size" % (kind, "t" if supply == "call" else "-", size)
+
+
+def hand_noise_terms(torch, terms, m, lead, sigma2=None, second=None, t=None, stored=None, sigma_t=None):
+    """the documented observation noise of a cell (ExactPosterior.tla DocNoise: a set of terms), written out densely on m points:
+    sigma2 / second: the parameter values (... x 1), t / stored: per-point values (... x m), sigma_t: the T x T task noise covariance"""
+    D = torch.float64
+    T = 1 if sigma_t is None else sigma_t.shape[-1]
+    S = torch.zeros(*lead, m * T, m * T, dtype=D)
+    eye = torch.eye(m, dtype=D)
+    for x in sorted(terms):
+        if x == "sigma2*I":
+            S = S + sigma2.reshape(*sigma2.shape[:-1], 1, 1) * eye
+        elif x == "second*I":
+            S = S + second.reshape(*second.shape[:-1], 1, 1) * eye
+        elif x == "diag(t)":
+            S = S + torch.diag_embed(t)
+        elif x == "diag(stored)":
+            S = S + torch.diag_embed(stored)
+        elif x == "I(x)Sigma_T":
+            S = S + torch.kron(eye, sigma_t)          # interleaved layout: points major, tasks minor
+        else:
+            raise core.Machinery("unknown noise term %r" % (x,))
+    return S
 
 
 def run_l1(torch, gpytorch, settings, c):
@@ -162,11 +221,18 @@ def run_l1(torch, gpytorch, settings, c):
     X = torch.tensor(inst["X"], dtype=D)
     Xs = torch.tensor(inst["Xs"], dtype=D)
     y = torch.tensor(inst["y"], dtype=D)
-    desc = "rational instance X=%s Xs=%s y=%s mean=%d noise=%d cell=%s" % (inst["X"], inst["Xs"], inst["y"], inst["mc"], inst["s2"], cell_name(cell))
-    res = dict(key=["L1", inst, cell_name(cell)], ok=True, nontrivial=any(not v for k, v in cell.items() if k in ("lazy", "eager", "chol", "cholroot", "detach")) or cell["fpv"] or cell["skipvar"] or cell.get("sw", "none") != "none",
+    lk, te = inst["lk"], inst["te"]
+    ncell = noise_cell_name(lk, "call" if te else "none", "train" if len(inst["Xs"]) == len(inst["X"]) else "test")
+    desc = "rational instance X=%s Xs=%s y=%s mean=%d likelihood=%s sigma2/second=%d stored=%s t=%s (S* = %s) cell=%s" % (
+        inst["X"], inst["Xs"], inst["y"], inst["mc"], lk, inst["s2"], inst["tr"], te or "-", " + ".join(sorted(exp.get("terms", []))) or "0", cell_name(cell))
+    res = dict(key=["L1", inst, cell_name(cell)], ok=True, nontrivial=any(not v for k, v in cell.items() if k in ("lazy", "eager", "chol", "cholroot", "detach")) or cell["fpv"] or cell["skipvar"] or cell.get("sw", "none") != "none"
+               or lk != "homoskedastic" or bool(te),
                sample=dict(case=desc), case=c)
-    from checks.gpmodels import ExactModel  # noqa
-    lik = gpytorch.likelihoods.GaussianLikelihood().to(D)
+    if lk == "homoskedastic":
+        lik = gpytorch.likelihoods.GaussianLikelihood().to(D)
+    else:
+        lik = gpytorch.likelihoods.FixedNoiseGaussianLikelihood(noise=torch.tensor(inst["tr"], dtype=D), learn_additional_noise=(lk == "fixed-learned")).to(D)
+    lik_kwargs = {"noise": torch.tensor(te, dtype=D)} if te else {}
 
     class M(gpytorch.models.ExactGP):
         def __init__(s_, x, yy, l):
@@ -178,25 +244,29 @@ def run_l1(torch, gpytorch, settings, c):
             return gpytorch.distributions.MultivariateNormal(s_.mean_module(x), s_.covar_module(x))
     model = M(X, y, lik).to(D)
     with torch.no_grad():
-        lik.noise = float(inst["s2"])
+        if lk == "homoskedastic":
+            lik.noise = float(inst["s2"])
+        elif lk == "fixed-learned":
+            lik.second_noise = float(inst["s2"])
         model.covar_module.variance = 1.0
         model.mean_module.constant = float(inst["mc"])
-    if abs(float(lik.noise) - inst["s2"]) > 1e-12 or abs(float(model.covar_module.variance) - 1.0) > 1e-12:
+    s2_set = float(lik.noise) if lk == "homoskedastic" else float(lik.second_noise) if lk == "fixed-learned" else float(inst["s2"])
+    if abs(s2_set - inst["s2"]) > 1e-12 or abs(float(model.covar_module.variance) - 1.0) > 1e-12:
         return dict(machinery="could not set integer hyperparameters exactly")
     model.eval()
     lik.eval()
     wm = torch.tensor([rat(v) for v in exp["mean"]], dtype=D)
     wc = torch.tensor([[rat(v) for v in row] for row in exp["cov"]], dtype=D)
     wmc = torch.tensor([[rat(v) for v in row] for row in exp["marg"]], dtype=D)
-    ok, got = core.guarded(lambda: predict(torch, settings, model, lik, Xs, cell, len(inst["X"]) + len(inst["Xs"])))
-    sig = "C01/L1/%s" % PathSig(cell)
+    ok, got = core.guarded(lambda: predict(torch, settings, model, lik, Xs, cell, len(inst["X"]) + len(inst["Xs"]), lik_kwargs))
+    sig = "C01/L1/%s/%s" % (ncell, PathSig(cell))
     if not ok:
-        res.update(ok=False, sig=sig + "/raises", detail="%s: %s" % (desc, got))
+        res.update(ok=False, sig=raises_sig(sig, lk, "call" if te else "none", "train" if len(inst["Xs"]) == len(inst["X"]) else "test", cell), detail="%s: %s" % (desc, got))
         return res
     compare(torch, res, desc, cell, got, (wm, wc, wmc), sig)
     if res["ok"]:
         # the same question again: the answer does not depend on what was asked before
-        ok, got = core.guarded(lambda: predict(torch, settings, model, lik, Xs, cell, len(inst["X"]) + len(inst["Xs"])))
+        ok, got = core.guarded(lambda: predict(torch, settings, model, lik, Xs, cell, len(inst["X"]) + len(inst["Xs"]), lik_kwargs))
         if not ok:
             res.update(ok=False, sig=sig + "/second-prediction/raises", detail="%s: second prediction: %s" % (desc, got))
             return res
@@ -220,6 +290,15 @@ def run_l2(torch, gpytorch, settings, c):
     mb = tuple(shape.get("model_batch", ()))
     tb = tuple(shape.get("test_batch", ()))
     n, d, ns = shape["n"], shape["d"], shape.get("ns", 3)
+    # noise cell of the FIRST prediction (ExactPosterior.tla part noise): call-time noise or none, as many test as training points or not;
+    # the second prediction has one more test point and the same supply; S* of either is built by hand from the spec's DocNoise table
+    supply, doc = c["supply"], c["doc"]
+    kind = {"gaussian": "homoskedastic", "fixed": "fixed", "fixedlearn": "fixed-learned", "mtask": "multitask"}[fam["lik"]]
+    fixedkind = fam["lik"] in ("fixed", "fixedlearn")
+    if c["size"] == "train":
+        ns = n
+    elif ns == n:
+        ns = n - 1
     tree = c01_hist.TREES[fam["kernel"][5:]] if fam["kernel"].startswith("tree:") else None
     kw = bool(tree) and c01_hist.tree_class(tree)[1]        # the model's forward passes a call-time keyword to its kernel
     if tree:
@@ -229,8 +308,9 @@ def run_l2(torch, gpytorch, settings, c):
     Xs = torch.rand(*(tb or mb), ns, d, generator=g, dtype=D) * 2 - 1
     ysh = (*mb, n, tasks) if tasks else (*mb, n)
     y = torch.randn(*ysh, generator=g, dtype=D)
-    desc = "%s/%s/%s n=%d d=%d model_batch=%s test_batch=%s cell=%s seed=%d" % (fam["kernel"], fam["mean"], fam["lik"], n, d, list(mb), list(tb), cell_name(cell), seed)
-    res = dict(key=["L2", fam, shape, cell_name(cell)], ok=True, nontrivial=True, case=c)
+    desc = "%s/%s/%s n=%d ns=%d d=%d model_batch=%s test_batch=%s noise=%s cell=%s seed=%d" % (fam["kernel"], fam["mean"], fam["lik"], n, ns, d, list(mb), list(tb),
+                                                                                         "t" if supply == "call" else "-", cell_name(cell), seed)
+    res = dict(key=["L2", fam, shape, cell_name(cell), supply, c["size"]], ok=True, nontrivial=True, case=c)
 
     def kern():
         k = fam["kernel"]
@@ -249,12 +329,13 @@ def run_l2(torch, gpytorch, settings, c):
             return K.ScaleKernel(K.MaternKernel(nu=2.5, batch_shape=bs) * K.LinearKernel(batch_shape=bs), batch_shape=bs)
         if k == "mtask":
             return K.MultitaskKernel(K.RBFKernel(), num_tasks=2, rank=1)
-    noise_tr = (0.1 + 0.2 * torch.rand(*mb, n, generator=g, dtype=D)) if fam["lik"] == "fixed" else None
-    noise_te = (0.1 + 0.2 * torch.rand(*(tb or mb), ns, generator=g, dtype=D)) if fam["lik"] == "fixed" else None
+    noise_tr = (0.1 + 0.2 * torch.rand(*mb, n, generator=g, dtype=D)) if fixedkind else None
+    # the call-time noise: one value per test point (and task), in a range of its own (0.35..0.6: no stored / learned value)
+    noise_te = (0.35 + 0.25 * torch.rand(*(tb or mb), ns * max(1, tasks), generator=g, dtype=D)) if supply == "call" else None
     if fam["lik"] == "gaussian":
         lik = gpytorch.likelihoods.GaussianLikelihood(batch_shape=torch.Size(mb))
-    elif fam["lik"] == "fixed":
-        lik = gpytorch.likelihoods.FixedNoiseGaussianLikelihood(noise=noise_tr)
+    elif fixedkind:
+        lik = gpytorch.likelihoods.FixedNoiseGaussianLikelihood(noise=noise_tr, learn_additional_noise=(fam["lik"] == "fixedlearn"), batch_shape=torch.Size(mb))
     else:
         lik = gpytorch.likelihoods.MultitaskGaussianLikelihood(num_tasks=2, rank=1)
     # the keyword widens the effective lengthscale (far from the default "no warp"; a narrowing one would make K nearly diagonal: clustered spectrum)
@@ -281,7 +362,9 @@ def run_l2(torch, gpytorch, settings, c):
     with torch.no_grad():   # hyperparameters inside their constraints, away from the defaults
         for p in model.parameters():
             p.add_(0.6 * (torch.rand(p.shape, generator=g, dtype=D) - 0.5))
-        if fam["lik"] != "fixed":
+        if fam["lik"] == "fixedlearn":       # (the noise setter of this likelihood sets the stored per-point noise)
+            lik.second_noise = lik.second_noise * 0 + 0.65 + 0.1 * float(torch.rand(1, generator=g))
+        elif fam["lik"] != "fixed":
             lik.noise = lik.noise * 0 + 0.15 + 0.1 * float(torch.rand(1, generator=g))
     model.eval()
     lik.eval()
@@ -290,22 +373,28 @@ def run_l2(torch, gpytorch, settings, c):
 
     gaps = []
 
+    def hand_noise(m, lead, sup, t):
+        """the documented noise on m points (training size: m = n): the terms of the spec's cell, from the parameter VALUES of the likelihood"""
+        terms = doc["%s/%s/%s" % (kind, sup, "train" if m == n else "test")]
+        sigma_t = None
+        if tasks:      # MultitaskGaussianLikelihood(rank=1): Sigma_T = F F^T + sigma2 I_T
+            F = lik.task_noise_covar_factor.detach()
+            sigma_t = F @ F.transpose(-1, -2) + lik.noise.detach() * torch.eye(tasks, dtype=D)
+        return hand_noise_terms(torch, terms, m, lead, sigma2=None if (fixedkind or tasks) else lik.noise.detach(),
+                                second=lik.second_noise.detach() if fam["lik"] == "fixedlearn" else None, t=t,
+                                stored=noise_tr.expand(*lead, n) if fixedkind else None, sigma_t=sigma_t)
+
     def oracle(Xs, noise_te):
-        """the denotation on the model's own K, m, S (kernels with active_dims / call-time keywords: K written out by hand on the declared columns)"""
+        """the denotation on the model's own K, m and the documented S (kernels with active_dims / call-time keywords: K written out by hand on the
+        declared columns; S, S* from the spec's noise table and the likelihood's parameter values)"""
         with torch.no_grad(), settings.lazily_evaluate_kernels(True):
             Xe = X.expand(*(tb or mb), n, d) if tb else X
             Z = torch.cat([Xe, Xs], dim=-2)
             prior = model.forward(Z)
             Kj = c01_hist.ref_kernel(torch, tree, model.covar_module, Z, Z, warp) if tree else prior.covariance_matrix
             mj = prior.mean.reshape(*Kj.shape[:-2], -1)
-            if fam["lik"] == "fixed":
-                Str = torch.diag_embed(noise_tr.expand(*Kj.shape[:-2], n))
-                Ste = torch.diag_embed(noise_te)
-            else:
-                ptr = model.forward(Xe)
-                Str = lik(ptr).covariance_matrix - ptr.covariance_matrix
-                pte = model.forward(Xs)
-                Ste = lik(pte).covariance_matrix - pte.covariance_matrix
+            Str = hand_noise(n, Kj.shape[:-2], "none", None)
+            Ste = hand_noise(Xs.shape[-2], Kj.shape[:-2], supply, noise_te)
             A = Kj[..., :ntr, :ntr] + Str
             cond = float(torch.linalg.cond(A).max())
             ev = torch.linalg.eigvalsh(A)
@@ -331,7 +420,7 @@ def run_l2(torch, gpytorch, settings, c):
     # TWO predictions on the same model, at different test inputs (the second with one more test point): the conditional must hold at both
     ns2 = ns + 1
     Xs2 = torch.rand(*(tb or mb), ns2, d, generator=g, dtype=D) * 2 - 1
-    noise_te2 = (0.1 + 0.2 * torch.rand(*(tb or mb), ns2, generator=g, dtype=D)) if fam["lik"] == "fixed" else None
+    noise_te2 = (0.35 + 0.25 * torch.rand(*(tb or mb), ns2 * max(1, tasks), generator=g, dtype=D)) if supply == "call" else None
     want1, cond, floor1 = oracle(Xs, noise_te)
     want2, _, floor2 = oracle(Xs2, noise_te2)
     lanczos_root = cell["fpv"] and not cell["cholroot"] and not cell["skipvar"]
@@ -340,14 +429,16 @@ def run_l2(torch, gpytorch, settings, c):
         # than n and lanczos_tridiag stops early for every probe (same reason as for the integer L1 instances)
         res.update(nontrivial=False, n=0)
         return res
-    sig = "C01/L2/%s/%s/%s" % (fam["kernel"], fam["lik"], PathSig(cell))
+    def sig_at(m):
+        return "C01/L2/%s/%s/%s" % (fam["kernel"], noise_cell_name(kind, supply, "train" if m == n else "test"), PathSig(cell))
 
     def attempt():
         for which, xs_k, nz_k, want, floor in (("", Xs, noise_te, want1, floor1), ("/second-prediction", Xs2, noise_te2, want2, floor2)):
-            lk = {"noise": nz_k} if fam["lik"] == "fixed" else {}
+            lk = {"noise": nz_k} if supply == "call" else {}
+            sig = sig_at(xs_k.shape[-2])
             ok, got = core.guarded(lambda: predict(torch, settings, model, lik, xs_k, cell, (n + xs_k.shape[-2]) * T, lk))
             if not ok:
-                res.update(ok=False, sig=sig + which + "/raises", detail="%s%s: %s" % (desc, which and " (second prediction, at other test inputs)", got))
+                res.update(ok=False, sig=raises_sig(sig + which, kind, supply, "train" if xs_k.shape[-2] == n else "test", cell), detail="%s%s: %s" % (desc, which and " (second prediction, at other test inputs)", got))
                 return
             compare(torch, res, desc + (which and " (second prediction, at other test inputs)"), cell, got, want, sig + which, floor)
             if not res["ok"]:
@@ -388,9 +479,13 @@ def run(ck):
                "every L1/L2 cell makes TWO predictions on the same model; L1: TLC's exact rational posteriors of "
                "linear-kernel instances through a real ExactGP on sampled cells; L2: seeded models (kernel x mean x likelihood x shape class; kernels include active_dims on "
                "3-column inputs - plain, inside Scale, ARD with non-ascending dims, parts of sums / products with different dims - and a kernel consuming a call-time keyword "
-               "passed by the model's forward) on every cell against the Gaussian conditional computed densely from the model's own K, m, S (active_dims / keyword kernels: K "
-               "written out by hand on the declared columns); "
-               "L4: every history of the history machine (ExactPosterior.tla part history: predictions under a switch or none, model.train(); model.eval() in between; "
+               "passed by the model's forward) on every cell against the Gaussian conditional computed densely from the model's own K, m and the documented S (active_dims / "
+               "keyword kernels: K written out by hand on the declared columns); "
+               "observation noise (part noise): likelihood kind (homoskedastic / fixed / fixed + learned additional noise / multitask) x call-time noise (none / noise=t) x "
+               "size handed to the likelihood (training size / another) = 16 cells whose documented noise (a set of terms, each added exactly once) TLC checks against the "
+               "transcribed _shaped_noise_covar (two broken transcriptions must be rejected); every rational L1 instance carries a noise cell (exact S and S* from the table), "
+               "every L2 case one (rotating per kind; S and S* built by hand from the table and the likelihood's parameter values, never by calling the likelihood); "
+               "L4: every history of the history machine (ExactPosterior.tla part history: predictions under a switch or none, model.train(); model.eval() / set_train_data / load_state_dict of other hyperparameter values in between; "
                "model class = active_dims nowhere / top-level / inner x keywords none / by forward / by the caller x tracked kernel in the model or in the noise model of a "
                "HeteroskedasticNoise likelihood x lazy-dense / lazy-slices / evaluated), closed by a prediction under default settings, EVERY prediction against the "
                "conditional written out by hand; the machine's invariant OnePrior is checked by TLC and two broken variants must be rejected; "
@@ -403,7 +498,12 @@ def run(ck):
                "Lanczos root at rank >= n (n <= 800) -> 2 * tridiagonal_jitter * (tr A / n) |A^-1 k_i| |A^-1 k_j| + 1e-4 relative + 1e-6, failing only if 4 "
                "independent probe vectors all miss it; "
                "max_cg_iterations below n, Lanczos rank below n, Lanczos above n = 800 -> nothing promised, not compared; non-trivial = a non-default path")
-    ck.assumptions = ["L4: mean, kernel and noise of the hand-written conditional read the hyperparameters (lengthscale, outputscale, variance, noise, constant) from "
+    ck.assumptions = ["observation noise: GaussianLikelihood(dist, noise=t) adds diag(t) INSTEAD of sigma2 I (HomoskedasticNoise.forward: 'if a noise kwarg is provided, "
+                      "this noise is used directly'); FixedNoiseGaussianLikelihood without a call-time noise adds the stored noise when the sizes match and nothing otherwise "
+                      "(its warned no-op); the learned additional noise is added in every case; MultitaskGaussianLikelihood ignores a call-time noise (its marginal takes "
+                      "none): the reading the current code satisfies",
+                      "rational instances keep det(Kxx+S) <= 100 (TLC's 32-bit integers; Rational.tla multiplies denominators)",
+                      "L4: mean, kernel and noise of the hand-written conditional read the hyperparameters (lengthscale, outputscale, variance, noise, constant) from "
                       "the modules' properties; the HeteroskedasticNoise variance at x is softplus(posterior mean of the noise GP at x) + 1e-4 (its default constraint), "
                       "the noise GP's posterior mean itself by hand",
                       "L4/L2: call-time keywords reach a mean only through the model's forward (gpytorch.means.Mean.__call__ accepts none): the keyword-consuming mean of L4 is a "
@@ -442,8 +542,34 @@ def run(ck):
     for name, consts in BROKEN.items():
         mod, cfg = write_mc(wd, "broken_" + name.replace("-", "_"), "history", histlen=2, invariants=("HistoryOK",), **consts)
         jobs.append(((mod, cfg), dict(name=PID + "/broken_" + name, check=False, workers=1, coverage=False)))
+    mod, cfg = write_mc(wd, "noise", "noise")
+    jobs.append(((mod, cfg), dict(name=PID + "/noise", dump=True, check=False, workers=1)))
+    for name, mode in BROKEN_NOISE.items():
+        mod, cfg = write_mc(wd, "broken_noise_" + mode.replace("-", "_"), "noise", secondnoise=mode, invariants=("NoiseOK",))
+        jobs.append(((mod, cfg), dict(name=PID + "/broken_noise_" + mode, check=False, workers=1, coverage=False)))
     rs = tlc.run_many(jobs, parallel=3)
     nh = len(hparts)
+    r_noise, rs_broken_noise = rs[3 + nh + len(BROKEN)], rs[3 + nh + len(BROKEN) + 1:]
+    rs = rs[:3 + nh + len(BROKEN)]
+    ck.add_tlc(r_noise, "ExactPosterior observation-noise cells")
+    if r_noise.violation:
+        ck.model_drift("ExactPosterior.tla observation-noise cells violate %s" % r_noise.violation["name"])
+    elif r_noise.rc != 0:
+        raise tlc.TLCError("TLC failed on ExactPosterior observation-noise cells:\n%s" % r_noise.stdout[-1500:])
+    # the documented noise of every cell: "kind/supply/size" -> terms
+    doc = {"%s/%s/%s" % (st["c"]["kind"], st["c"]["supply"], st["c"]["size"]): sorted(str(x) for x in st["out"]) for st in r_noise.states()}
+    if len(doc) != 16:
+        ck.vacuous("observation-noise lattice has %d cells instead of 16" % len(doc))
+    nrej = {}
+    for (name, mode), r in zip(BROKEN_NOISE.items(), rs_broken_noise):
+        ck.add_tlc(r, "ExactPosterior broken observation-noise transcription " + name)
+        nrej[name] = (r.violation or {}).get("name")
+        if not r.violation:
+            if r.rc != 0:
+                raise tlc.TLCError("TLC failed on the broken observation-noise transcription %s:\n%s" % (name, r.stdout[-1500:]))
+            ck.vacuous("the broken observation-noise transcription %s is accepted by TLC (NoiseOK is vacuous)" % name)
+    ck.extra["broken_noise_transcriptions_rejected"] = nrej
+    ck.extra["documented_noise"] = doc
     labels = ["settings lattice", "rational path formulas", "accuracy-knob lattice"] + ["prediction histories %d" % k for k in range(nh)]
     for lab, r in zip(labels, rs):
         ck.add_tlc(r, "ExactPosterior " + lab)
@@ -476,9 +602,13 @@ def run(ck):
     lin = [(dict(st["c"]), st["out"]) for st in rs[1].states() if st["c"]["kind"] == "lin"]
     cases = []
     draw = 0
+    ncells, l1cells = {}, {}          # noise cells replayed (L2 cases / L1 rational instances): "kind/supply/size" -> count
     for k, (inst, out) in enumerate(lin):
-        inst = {kk: ([list(r) for r in v] if kk in ("X", "Xs") else (list(v) if kk == "y" else v)) for kk, v in inst.items()}
-        exp = dict(mean=[list(v) for v in out["mean"]], cov=[[list(v) for v in row] for row in out["cov"]], marg=[[list(v) for v in row] for row in out["marg"]])
+        inst = {kk: ([list(r) for r in v] if kk in ("X", "Xs") else (list(v) if kk in ("y", "tr", "te") else v)) for kk, v in inst.items()}
+        exp = dict(mean=[list(v) for v in out["mean"]], cov=[[list(v) for v in row] for row in out["cov"]], marg=[[list(v) for v in row] for row in out["marg"]],
+                   terms=sorted(str(x) for x in out["terms"]))
+        key = "%s/%s/%s" % (inst["lk"], "call" if inst["te"] else "none", "train" if len(inst["Xs"]) == len(inst["X"]) else "test")
+        l1cells[key] = l1cells.get(key, 0) + 1
         sel = cells if (k < 2) else rnd.sample(cells, 16 if thorough else 6)
         for cell in sel:
             if cell["fpv"] and not cell["cholroot"] and not cell["skipvar"]:
@@ -488,17 +618,20 @@ def run(ck):
             draw += 1
             cases.append(dict(level="L1", inst=inst, cell=with_switch(cell, draw), exp=exp))
     fams = [dict(kernel=k, mean=m, lik=l) for k, m, l in [("rbf_ard", "constant", "gaussian"), ("matern", "linear", "gaussian"), ("rq", "constant", "fixed"),
-                                                        ("sum", "constant", "gaussian"), ("prod", "linear", "fixed"), ("mtask", "constant", "mtask"),
+                                                        ("sum", "constant", "fixedlearn"), ("prod", "linear", "fixed"), ("mtask", "constant", "mtask"),
                                                         # kernels with active_dims on 3-column inputs: on the top-level module (plain, inside Scale, ARD with
                                                         # non-ascending dims), on the parts of sums / products (different dims per part); kernels consuming a
                                                         # call-time keyword passed by the model's forward (K by hand on the declared columns, c01_hist.ref_kernel)
                                                         ("tree:rbf@02", "constant", "gaussian"), ("tree:scale(matern@12)", "linear", "fixed"),
-                                                        ("tree:scale(rbf-ard@20)", "constant", "gaussian"), ("tree:scale(rbf@0)+matern@12", "constant", "fixed"),
-                                                        ("tree:rbf@01*linear@2", "linear", "gaussian"), ("tree:scale(rbf@02+linear@1)", "constant", "gaussian"),
+                                                        ("tree:scale(rbf-ard@20)", "constant", "gaussian"), ("tree:scale(rbf@0)+matern@12", "constant", "fixedlearn"),
+                                                        ("tree:rbf@01*linear@2", "linear", "fixedlearn"), ("tree:scale(rbf@02+linear@1)", "constant", "gaussian"),
                                                         ("tree:scale(warp)", "constant", "gaussian"), ("tree:warp@0+matern@12", "linear", "fixed")]]
     shapes = [dict(n=6, d=2), dict(n=1, d=1), dict(n=5, d=3, model_batch=[2]), dict(n=5, d=1, test_batch=[2]),
               dict(n=4, d=1, ns=4)]      # as many test as training points (size-based shortcuts, e.g. of fixed-noise models)
     seeds = range(3 if thorough else 1)
+    # the noise cell of an L2 case rotates per likelihood kind through supply x size (the size class overrides the number of test points of the shape)
+    NC = [("call", "test"), ("none", "train"), ("call", "train"), ("none", "test")]
+    nck = {}
     for ci, cell in enumerate(cells):
         for fi, fam in enumerate(fams):
             for si, shape in enumerate(shapes):
@@ -507,7 +640,20 @@ def run(ck):
                 if not thorough and (fi + si + sum(1 for f in FLAGS if cell[f])) % 3 != 0:
                     continue
                 for s in seeds:
-                    cases.append(dict(level="L2", fam=fam, shape=shape, cell=with_switch(cell, ci + 5 * fi + 3 * si + 7 * s), seed=ck.seed * 1000 + fi * 100 + si * 10 + s))
+                    nck[fam["lik"]] = nck.get(fam["lik"], 0) + 1
+                    supply, size = NC[(nck[fam["lik"]] + nck[fam["lik"]] // 4) % 4]       # (the shift breaks the alignment with the 5 shapes / 3 seeds)
+                    if shape["n"] == 1 and size == "test" and shape.get("ns", 3) == 1:
+                        size = "train"
+                    kind = {"gaussian": "homoskedastic", "fixed": "fixed", "fixedlearn": "fixed-learned", "mtask": "multitask"}[fam["lik"]]
+                    key = "%s/%s/%s" % (kind, supply, size)
+                    ncells[key] = ncells.get(key, 0) + 1
+                    cases.append(dict(level="L2", fam=fam, shape=shape, cell=with_switch(cell, ci + 5 * fi + 3 * si + 7 * s), seed=ck.seed * 1000 + fi * 100 + si * 10 + s,
+                                      supply=supply, size=size, doc=doc))
+    for key in sorted(doc):
+        if not ncells.get(key):
+            ck.vacuous("no replayed seeded case for the observation-noise cell %s" % key)
+        if not l1cells.get(key) and not key.startswith("multitask"):
+            ck.vacuous("no rational instance for the observation-noise cell %s" % key)
     l4 = history_cases(ck, rs[3:3 + nh], hl, thorough)
     cases += l4
     l3 = knob_cases(ck, rs[2], rnd, thorough)
@@ -526,7 +672,7 @@ def run(ck):
             ck.vacuous("no replayed lattice cell runs under switch %s" % w)
     ck.section("replay", cells=len(allcells), L1_cases=l1, L2_cases=len(cases) - l1 - len(l3) - len(l4), L3_cases=len(l3), L4_histories=len(l4), rational_instances=len(insts),
                lattice_cases_per_switch=sws, predictions_per_L1_L2_case=2,
-               L4_predictions=sum(r.get("npred", 0) for r in results),
+               L4_predictions=sum(r.get("npred", 0) for r in results), L2_cases_per_noise_cell=dict(sorted(ncells.items())), rational_instances_per_noise_cell=dict(sorted(l1cells.items())),
                skipped_ill_conditioned=sum(1 for r in results if r.get("n") == 0 and not r.get("nopromise")))
     worst = {}
     for r in results:
@@ -547,7 +693,7 @@ def history_cases(ck, runs, hl, thorough):
                 hists.append((dict(cc["m"]), str(cc["p"]), [str(a) for a in cc["hist"]], len(st["out"])))
     hists.sort(key=lambda h: (sorted(h[0].items()), h[1], h[2]))
     seen = {a for h in hists for a in h[2]}
-    for a in ("refresh", "set-targets", "set-data", "none") + c01_hist.SWITCHES:
+    for a in ("refresh", "set-targets", "set-data", "load-state", "none") + c01_hist.SWITCHES:
         if a not in seen:
             ck.vacuous("no generated history takes step %s" % a)
     for site in ("covar", "noise"):
@@ -557,7 +703,7 @@ def history_cases(ck, runs, hl, thorough):
     for kw in ("forward", "call"):
         if not any(h[0]["kw"] == kw for h in hists):
             ck.vacuous("no generated history for a model passing keywords by %s" % kw)
-    order = ("none",) + c01_hist.SWITCHES + ("refresh", "set-targets", "set-data")
+    order = ("none",) + c01_hist.SWITCHES + ("refresh", "set-targets", "set-data", "load-state")
     out, k = [], 0
     per = {}
     for m, p, hist, nobs in hists:
@@ -567,7 +713,7 @@ def history_cases(ck, runs, hl, thorough):
         if (sum(order.index(a) for a in hist) + ik) % (2 if thorough else 3) != 0:
             continue          # quick tier: a third of the length-2 histories (every (model class, path, first step) with 3-4 continuations); thorough: half of the length-3 ones
         trees = c01_hist.BY_CLASS[(m["ad"], m["kw"] != "none" and m["site"] == "covar")]
-        out.append(dict(level="L4", m=m, p=p, hist=hist, tree=trees[k % len(trees)], lik=("gaussian", "fixed")[(k // len(trees)) % 2], seed=(ck.seed * 131 + k) % 100000,
+        out.append(dict(level="L4", m=m, p=p, hist=hist, tree=trees[k % len(trees)], lik=("gaussian", "fixed", "fixedlearn")[(k // len(trees)) % 3], seed=(ck.seed * 131 + k) % 100000,
                         tracked_predictions=nobs, close_at_train=(k % 4 == 0)))
     ck.section("histories", generated=len(hists), replayed=len(out), length=hl, model_classes=len(per))
     return out
